@@ -13,6 +13,9 @@
 (*   bad     unknown filter; more arguments than the filter takes          *)
 (*   lit     literals denote themselves                                    *)
 (*   space   the same tags and objects under different whitespace         *)
+(*   names   identifiers that look like keywords, with hyphens, question   *)
+(*           marks, digits: as variables, properties, keys, assign / loop  *)
+(*           / capture targets                                             *)
 (*   rng     ranges (lo..hi), ascending, single, empty and descending,    *)
 (*           with literal and variable endpoints, as filter receivers and *)
 (*           arguments, assigned and looked into                           *)
@@ -98,7 +101,20 @@ AllFilters == <<"compact", "reverse", "first", "last", "uniq", "abs", "ceil", "f
 \* ------------------------------------------------------------------- lit
 LitU == << IntV(0), IntV(7), IntV(0 - 3), IntV(12345), Flt(5, 2), Flt(0 - 3, 4), Flt(3, 1), Flt(1, 8), S(<<>>), S(<<97, 32, 98>>),
            S(<<105, 116, 34, 115>>), S(<<105, 116, 39, 115>>), Bool(TRUE), Bool(FALSE), Nil, S(<<195, 169>>), S(<<110, 105, 108>>),
-           S(<<49>>), S(<<97, 124, 98>>), S(<<97, 58, 32, 98, 44, 99>>) >>
+           S(<<49>>), S(<<97, 124, 98>>), S(<<97, 58, 32, 98, 44, 99>>),
+           \* literals that differ only in the white space they contain
+           S(<<112, 32, 113>>), S(<<112, 32, 32, 113>>), S(<<112, 10, 113>>), S(<<112, 9, 113>>), S(<<32>>), S(<<32, 32>>), S(<<10>>) >>
+\* ... and all of them in one template, so that they meet in one parse
+WsLits == <<S(<<112, 32, 113>>), S(<<112, 32, 32, 113>>), S(<<112, 10, 113>>), S(<<112, 9, 113>>), S(<<112, 32, 32, 32, 113>>)>>
+WsProg(k) ==
+  Flatten([i \in 1..Len(WsLits) |-> <<T(<<91>>), Ob(Lit(WsLits[((i + k) % Len(WsLits)) + 1])), T(<<93>>)>>])
+  \o <<Ob(Fl(Fl(Lit(S(<<97, 32, 32, 98, 32, 99>>)), "split", <<Lit(S(<<32, 32>>))>>), "join", <<Lit(S(<<44>>))>>)), T(<<124>>),
+       Ob(Fl(Fl(Lit(S(<<97, 32, 32, 98, 32, 99>>)), "split", <<Lit(S(<<32>>))>>), "join", <<Lit(S(<<44>>))>>)), T(<<124>>),
+       Ob([t |-> "cmp", op |-> "==", a |-> Lit(WsLits[1]), b |-> Lit(WsLits[2])]),
+       [t |-> "if", branches |-> <<[c |-> [t |-> "cmp", op |-> "==", a |-> Lit(WsLits[((k + 1) % 5) + 1]), b |-> Lit(WsLits[((k + 2) % 5) + 1])], body |-> <<T(<<61>>)>>],
+                                   [c |-> [t |-> "else"], body |-> <<T(<<35>>)>>]>>],
+       [t |-> "case", e |-> Lit(WsLits[2]), pre |-> <<>>, whens |-> <<[vals |-> <<Lit(WsLits[1])>>, body |-> <<T(<<49>>)>>],
+                                                                     [vals |-> <<Lit(WsLits[2])>>, body |-> <<T(<<50>>)>>]>>]>>
 
 \* ------------------------------------------------------------------- rng
 Zz == <<122>>
@@ -130,6 +146,27 @@ RngUses(x) == <<
 >>
 NRngUses == 18
 
+\* ----------------------------------------------------------------- names
+\* identifiers that begin with, end with or contain a keyword, a hyphen, a question mark, an underscore, a digit:
+\* order android ink index nile truest falsely containsx a-b a_b x? _u a1 Z orange andy inn nil_ true1 e forloops contains_ in_ or_ and_ size_ first1 blank empty if for assign
+NameU == << <<111, 114, 100, 101, 114>>, <<97, 110, 100, 114, 111, 105, 100>>, <<105, 110, 107>>, <<105, 110, 100, 101, 120>>, <<110, 105, 108, 101>>, <<116, 114, 117, 101, 115, 116>>, <<102, 97, 108, 115, 101, 108, 121>>, <<99, 111, 110, 116, 97, 105, 110, 115, 120>>, <<97, 45, 98>>, <<97, 95, 98>>, <<120, 63>>, <<95, 117>>, <<97, 49>>, <<90>>, <<111, 114, 97, 110, 103, 101>>, <<97, 110, 100, 121>>, <<105, 110, 110>>, <<110, 105, 108, 95>>, <<116, 114, 117, 101, 49>>, <<101>>, <<102, 111, 114, 108, 111, 111, 112, 115>>, <<99, 111, 110, 116, 97, 105, 110, 115, 95>>, <<105, 110, 95>>, <<111, 114, 95>>, <<97, 110, 100, 95>>, <<115, 105, 122, 101, 95>>, <<102, 105, 114, 115, 116, 49>>, <<98, 108, 97, 110, 107>>, <<101, 109, 112, 116, 121>>, <<105, 102>>, <<102, 111, 114>>, <<97, 115, 115, 105, 103, 110>> >>
+NameUses(nm) == <<
+  <<T(<<91>>), Ob(Var(nm)), T(<<93>>)>>,
+  <<T(<<91>>), Ob(P(Var(<<109>>), nm)), T(<<93>>)>>,
+  <<T(<<91>>), Ob(Ix(Var(<<109>>), Lit(S(nm)))), T(<<93>>)>>,
+  <<[t |-> "if", branches |-> <<[c |-> [t |-> "cmp", op |-> "==", a |-> Var(nm), b |-> Lit(S(<<86>>))], body |-> <<T(<<121>>)>>],
+                               [c |-> [t |-> "else"], body |-> <<T(<<110>>)>>]>>]>>,
+  <<[t |-> "assign", name |-> nm, e |-> Lit(IntV(3))], T(<<91>>), Ob(Var(nm)), T(<<93>>)>>,
+  <<[t |-> "for", tag |-> "for", var |-> nm, coll |-> [t |-> "range", a |-> Lit(IntV(1)), b |-> Lit(IntV(2))], body |-> <<Ob(Var(nm))>>], Ob(Var(nm))>>,
+  <<Ob(Fl(Lit(S(<<120>>)), "append", <<Var(nm)>>))>>,
+  <<[t |-> "capture", name |-> nm, body |-> <<T(<<99>>)>>], Ob(Var(nm))>>,
+  <<[t |-> "if", branches |-> <<[c |-> [t |-> "and", a |-> Var(nm), b |-> [t |-> "cmp", op |-> "contains", a |-> Var(nm), b |-> Lit(S(<<86>>))]],
+                                body |-> <<T(<<121>>)>>]>>]>>,
+  <<Ob(P(P(Var(<<109>>), nm), B_size))>>,
+  <<Ob(Fl(Var(nm), "append", <<P(Var(<<109>>), nm)>>))>>
+>>
+NNameUses == 11
+
 \* ----------------------------------------------------------------- space
 \* fixed programs whose meaning must not depend on the whitespace inside tags
 SpaceProgs == <<
@@ -155,7 +192,9 @@ Cases ==
   \cup [g : {"bad"}, f : 1..Len(AllFilters), kind : {"toomany", "toomany-nil", "toomany-undef"}]
   \cup [g : {"bad"}, f : {1}, kind : {"unknown", "unknown-args", "unknown-mid"}]
   \cup [g : {"lit"}, v : 1..Len(LitU), form : {"print", "eq", "assign"}]
+  \cup [g : {"litws"}, k : 0..4]
   \cup [g : {"rng"}, lo : (0 - 1)..3, hi : (0 - 2)..4, use : 1..NRngUses, asvar : BOOLEAN]
+  \cup [g : {"names"}, nm : 1..Len(NameU), use : 1..NNameUses]
   \cup [g : {"space"}, q : 1..Len(SpaceProgs), sp : 1..Len(Spacings), tight : BOOLEAN]
 
 ManyArgs(f) == [k \in 1..(DocArgs(f) + 2) |-> Lit(IntV(1))]
@@ -177,6 +216,8 @@ ProgOf(x) ==
             [] x.form = "eq" -> <<Ob([t |-> "cmp", op |-> "==", a |-> Lit(LitU[x.v]), b |-> Var(A)])>>
             [] x.form = "assign" -> <<[t |-> "assign", name |-> <<122>>, e |-> Lit(LitU[x.v])], T(<<91>>), Ob(Var(<<122>>)), T(<<93>>)>>)
     [] x.g = "rng" -> RngUses(x)[x.use]
+    [] x.g = "names" -> NameUses(NameU[x.nm])[x.use]
+    [] x.g = "litws" -> WsProg(x.k)
     [] x.g = "space" -> SpaceProgs[x.q]
 
 EnvOf2(x) ==
@@ -185,7 +226,9 @@ EnvOf2(x) ==
     [] x.g = "pipe" -> PipeEnv(x.r)
     [] x.g = "bad" -> << <<A, S(<<97>>)>> >>
     [] x.g = "lit" -> << <<A, LitU[x.v]>> >>
+    [] x.g = "litws" -> <<>>
     [] x.g = "rng" -> << <<A, Arr(<<IntV(7)>>)>>, <<Lo, IntV(x.lo)>>, <<Hi, IntV(x.hi)>> >>
+    [] x.g = "names" -> << <<NameU[x.nm], S(<<86>>)>>, <<<<109>>, MapV(<< <<NameU[x.nm], S(<<80, 80>>)>> >>)>> >>
     [] x.g = "space" -> PipeEnv(1)
 CxOf(x) == IF x.g = "look" /\ x.strict THEN [Cx0 EXCEPT !.strict = TRUE] ELSE Cx0
 Res(x) == Render(CxOf(x), ProgOf(x), EnvOf(EnvOf2(x)))
@@ -232,6 +275,8 @@ RangeLaw ==
     /\ Res(c).status \in {"ok", "unspec"}
     /\ c.use \in {1, 7, 8, 9, 11} => (Res(c).status = "ok" /\ Res(c).out = JoinInts(c.lo, c.hi))
     /\ (c.use = 6 /\ c.hi < c.lo) => Res(c).out = <<55>>
+\* a name denotes its binding, whatever the name looks like
+NamesLaw == c.g = "names" => Res(c).status = "ok"
 BadIsError == c.g = "bad" => Res(c).status = "error"
 SpacingIrrelevant == TRUE     \* the reference works on trees: spelling cannot matter to it by construction
 
@@ -240,7 +285,9 @@ IdOf(x) ==
     [] x.g = "look" -> "look-" \o ToString(x.b) \o "-" \o ToString(x.p) \o "-" \o ToString(x.strict)
     [] x.g = "pipe" -> "pipe-" \o ToString(x.r) \o "-" \o ToString(x.ss) \o "-" \o ToString(x.direct)
     [] x.g = "bad" -> "bad-" \o ToString(x.f) \o "-" \o x.kind
+    [] x.g = "litws" -> "litws-" \o ToString(x.k)
     [] x.g = "lit" -> "lit-" \o ToString(x.v) \o "-" \o x.form
+    [] x.g = "names" -> "names-" \o ToString(x.nm) \o "-" \o ToString(x.use)
     [] x.g = "rng" -> "rng-" \o ToString(x.lo) \o "-" \o ToString(x.hi) \o "-" \o ToString(x.use) \o "-" \o ToString(x.asvar)
     [] x.g = "space" -> "space-" \o ToString(x.q) \o "-" \o ToString(x.sp) \o "-" \o ToString(x.tight)
 EmitCase == PrintT(ToJson(
